@@ -1878,3 +1878,129 @@ func ruleNoSelfComparison(scope func(string) bool, ruleID string, min int) func(
 		c.Check(n > 0, ruleID, "comparisons scanned", 0, fmt.Sprintf("%d comparisons, none compares an expression with itself", n), "no comparison found in scope")
 	}
 }
+
+// EV5: the wire of an older version carries the OLD types. In the C++ compatibility (de)serializers — the per-version
+// Read/Write functions of a changed record or alias, and the per-version branch of a protocol step — every value is
+// read from / written to the stream with the routine of its type in the PREVIOUS version: wherever a type change X is
+// known for the field/step (`X != nil`), the routine is typeRwFunction(X.OldType(), …); the type of the latest
+// definition never selects the routine. The explicit conversion, when one is required, receives the same change and
+// the same direction flag.
+func ruleOldTypesOnTheOldWire(c *core.Ctx) {
+	const rule = "EV5"
+	c.Rule(rule, "cpp/binary compatibility serializers: an I/O emission that can run while a type change X is known uses typeRwFunction(X.OldType(), write); no I/O routine is selected from the latest definition's types; writeTypeConversion gets the same change and `write`", 10)
+	p := c.Pkg("internal/cpp/binary")
+	if p == nil {
+		c.Undecided(rule, "anchor/internal/cpp/binary", 0, "package not found")
+		return
+	}
+	ioType := func(r gee.Row) (string, bool) {
+		if r.Kind == "call" && r.Tmpl == "writeStepRw" && len(r.Args) >= 2 {
+			return r.Args[1], true
+		}
+		if r.Kind == "emit" && strings.Contains(r.Tmpl, "(stream") && len(r.Args) >= 1 {
+			a := r.Args[0]
+			for _, fn := range []string{"typeRwFunction(", "typeDefinitionRwFunction("} {
+				if strings.HasPrefix(a, fn) {
+					inner := a[len(fn) : len(a)-1]
+					if i := strings.LastIndex(inner, ","); i > 0 {
+						return strings.TrimSpace(inner[:i]), true
+					}
+				}
+			}
+		}
+		return "", false
+	}
+	neqNil := regexp.MustCompile(`^(.+) != nil$`)
+	for _, fn := range []string{"writeCompatibilitySerializers", "writeProtocolStep"} {
+		_, d, _ := c.Func("internal/cpp/binary", fn)
+		if d == nil {
+			c.Undecided(rule, "anchor/cpp/binary."+fn, 0, "anchor not found")
+			continue
+		}
+		x := &gee.Extractor{Info: p.TypesInfo, Fset: c.Fset, Decl: func(f *types.Func) *ast.FuncDecl {
+			if f == nil || f.Pkg() != p.Types {
+				return nil
+			}
+			return c.Decl(f)
+		}}
+		rows := x.Extract(fn, d)
+		// the changes this function tests for presence or classifies
+		changes := map[string]bool{}
+		for _, r := range rows {
+			for _, g := range r.Guards {
+				g = stripDsl(g)
+				for strings.HasPrefix(g, "!(") && strings.HasSuffix(g, ")") && balanced(g[2:len(g)-1]) {
+					g = g[2 : len(g)-1]
+				}
+				for _, part := range splitTop(g, " && ") {
+					if m := neqNil.FindStringSubmatch(strings.TrimSpace(part)); m != nil && (strings.Contains(m[1], "Change") || strings.HasSuffix(m[1], "tc")) {
+						changes[m[1]] = true
+					}
+					if strings.HasPrefix(strings.TrimSpace(part), "requiresExplicitConversion(") {
+						changes[strings.TrimSuffix(strings.TrimPrefix(strings.TrimSpace(part), "requiresExplicitConversion("), ")")] = true
+					}
+				}
+			}
+		}
+		seen := map[string]int{}
+		for _, r := range rows {
+			T, isIO := ioType(r)
+			if !isIO {
+				continue
+			}
+			T = stripDsl(T)
+			key := fn + "/io " + T
+			seen[key]++
+			if seen[key] > 1 {
+				key += "#" + itoa(seen[key])
+			}
+			if strings.Contains(T, "LatestDefinition()") && (strings.Contains(strings.Join(r.Guards, " "), "RecordChange") || strings.Contains(T, "Fields[")) {
+				c.Bad(rule, key, r.Pos, "the routine for a field of an older version is selected from the LATEST record's field type (`"+T+"`): when the field's type — or a record/alias nested in it — changed, the old stream is read with the new layout")
+				continue
+			}
+			verdict := ""
+			for X := range changes {
+				asg := map[string]string{X + " != nil": "true"}
+				if sat, _ := guardSat(mapStrings(r.Guards, stripDsl), asg); !sat {
+					continue
+				}
+				// this emission can run while the change X is known
+				mentions := false
+				for _, g := range r.Guards {
+					if strings.Contains(stripDsl(g), X) {
+						mentions = true
+					}
+				}
+				if !mentions {
+					continue // unrelated to X (e.g. the removed-field branch, the step-added branch)
+				}
+				if T != X+".OldType()" {
+					verdict = "can run while the type change `" + X + "` is known, but the routine is chosen for `" + T + "`, not for " + X + ".OldType(): the stream of the older version is read/written with the wrong layout"
+				}
+			}
+			c.Check(verdict == "", rule, key, r.Pos, "routine of the previous version's type", verdict)
+		}
+		// conversions
+		nconv := 0
+		for _, r := range rows {
+			if r.Kind != "call" || r.Tmpl != "writeTypeConversion" || len(r.Args) < 5 {
+				continue
+			}
+			nconv++
+			key := fn + "/conversion#" + itoa(nconv)
+			X := stripDsl(r.Args[1])
+			okFlag := r.Args[4] == "write"
+			guarded := false
+			for _, g := range r.Guards {
+				if strings.Contains(stripDsl(g), "requiresExplicitConversion(") && !strings.HasPrefix(stripDsl(g), "!") {
+					guarded = true
+				}
+			}
+			c.Check(okFlag && guarded, rule, key, r.Pos, "conversion of "+X+" under requiresExplicitConversion, same direction flag",
+				"writeTypeConversion is called with direction `"+r.Args[4]+"` / outside the requiresExplicitConversion branch: the conversion runs in the wrong direction or for a change that needs none")
+		}
+		if nconv == 0 {
+			c.Undecided(rule, fn+"/conversions", d.Pos(), "no writeTypeConversion call found")
+		}
+	}
+}
